@@ -141,6 +141,11 @@ def run_check(prop, tier, replay=None):
     seed = C.seed_from_env()
     rng = C.Rng(seed).fork(prop)
     b = C.build()
+    d = os.path.join(C.WORK, prop)
+    if os.path.isdir(d) and not replay:
+        for f in os.listdir(d):
+            if f.startswith("replay-"):
+                os.remove(os.path.join(d, f))
     violations = []  # (replay path, suffix)
     notes = []
     if b.lint:
